@@ -200,12 +200,13 @@ pub fn is_vendor_name(n: &str) -> bool {
 }
 pub fn random_loadable(g: &Gram, rng: &mut Rng, shuffle: bool, max_fns: usize) -> (Vec<SInst>, bool) {
     let mut ctx = Ctx::new();
+    scale_reset_mod();
     let mut vendor_budget = 3; // each unclassified (vendor) opcode doubles the outcomes the spec must consider
     let order = ["Cap", "Ext", "Import", "MemModel", "Entry", "ExecMode", "DbgStr", "DbgName", "ModProc", "Annot", "TypeConst"];
     let mut globals: Vec<SInst> = vec![];
     let mut layout = true;
     for c in order {
-        let n = if c == "MemModel" { rng.below(2) } else { rng.below(4) };
+        let n = if c == "MemModel" { rng.below(2) } else { rng.count_mod(4) };
         for _ in 0..n {
             if c == "TypeConst" && rng.chance(1, 4) {
                 let k = *rng.pick(&["VarOrUndef", "Line", "TypeConst"]);
@@ -226,13 +227,13 @@ pub fn random_loadable(g: &Gram, rng: &mut Rng, shuffle: bool, max_fns: usize) -
         for i in (1..globals.len()).rev() { let j = rng.below(i + 1); globals.swap(i, j); }
     }
     let mut insts = globals;
-    let nf = rng.below(max_fns + 1);
+    let nf = rng.count_mod(max_fns + 1);
     for _ in 0..nf {
         insts.push(class_inst(g, "Fn", rng, &mut ctx));
-        for _ in 0..rng.below(3) { insts.push(class_inst(g, "Param", rng, &mut ctx)); }
-        for _ in 0..rng.below(4) {
+        for _ in 0..rng.count_mod(3) { insts.push(class_inst(g, "Param", rng, &mut ctx)); }
+        for _ in 0..rng.count_mod(4) {
             insts.push(class_inst(g, "Label", rng, &mut ctx));
-            for _ in 0..rng.below(5) {
+            for _ in 0..rng.count_mod(5) {
                 let k = match rng.below(12) { 0 => "VarOrUndef", 1 => "Line", _ => "BlockInst" };
                 if k == "BlockInst" && rng.chance(1, 2) {
                     // any non-module-level, non-structural opcode
